@@ -721,6 +721,15 @@ func (c *Ctx) heapWF(h Term, info heapInfo) {
 			c.usedFieldInv[fi] = true
 		}
 	}
+	if info.owner != nil && c.Mode == ArithInt && c.W != nil && isInteger(info.ty) && !info.two {
+		// assumed range of a field of an external (library) struct type, from /verif/stubs ("field T.F range lo hi")
+		if st, ok := info.owner.Underlying().(*types.Struct); ok && info.field < st.NumFields() {
+			if fr, ok := c.W.FieldRanges[typeKey(info.owner)+"."+st.Field(info.field).Name()]; ok {
+				c.decl("wffr:"+h.S, fmt.Sprintf("(assert (forall ((r Int)) (! (and (<= %s (select %s r)) (<= (select %s r) %s)) :pattern ((select %s r)))))", fr.Lo, h.S, h.S, fr.Hi, h.S))
+				c.trust(fmt.Sprintf("assumed range of library field %s.%s in [%s, %s] (%s:%d)", typeKey(info.owner), st.Field(info.field).Name(), fr.Lo, fr.Hi, relFile(fr.File), fr.Line))
+			}
+		}
+	}
 	if isInteger(info.ty) && c.Mode == ArithInt {
 		c.decl("wf:"+h.S,fmt.Sprintf("(assert (forall %s (! %s :pattern (%s))))", bind, c.inRange(Term{sel, SInt}, info.ty).S, sel))
 	}
